@@ -35,6 +35,48 @@ def build_root():
     return root
 
 
+SUBMIT_SH = """#!/bin/sh
+# a submit command: the job script arrives on stdin, the job id goes to stdout
+f=$(mktemp "${TMPDIR:-/tmp}/vq.XXXXXX")
+cat > "$f"
+if [ -n "$VERIF_KILL_ON_SUBMIT" ] && grep -q -- "$VERIF_KILL_ON_SUBMIT" "$f" && mkdir "$VERIF_KILL_ONCE" 2>/dev/null; then
+    # a submit command that waits for the job (qsub -sync y); mrp is killed outright before it returns
+    setsid sh "$f" > /dev/null 2>&1 < /dev/null
+    kill -9 $PPID
+    exit 0
+fi
+setsid sh "$f" > /dev/null 2>&1 < /dev/null &
+echo "j$!"
+"""
+
+QUEUE_TEMPLATE = """#!/bin/sh
+# __MRO_JOB_NAME__ threads __MRO_THREADS__ mem __MRO_MEM_GB__
+cd __MRO_JOB_WORKDIR__
+__MRO_CMD__ > __MRO_STDOUT__ 2> __MRO_STDERR__
+"""
+
+
+def build_cluster_root(root):
+    """A second installation root whose jobmanagers directory defines the job mode `verifq`:
+    jobs are handed to a submit script that starts them detached from mrp.  Returns the root."""
+    rq = os.path.join(vlib.BUILD, "mroot_q")
+    shutil.rmtree(rq, ignore_errors=True)
+    os.makedirs(os.path.join(rq, "bin"))
+    for f in os.listdir(os.path.join(root, "bin")):
+        shutil.copy2(os.path.join(root, "bin", f), os.path.join(rq, "bin", f))
+    jm = os.path.join(rq, "jobmanagers")
+    shutil.copytree(os.path.join(vlib.REPO, "jobmanagers"), jm)
+    cfg = json.load(open(os.path.join(jm, "config.json")))
+    sub = os.path.join(jm, "verifq_submit.sh")
+    open(sub, "w").write(SUBMIT_SH)
+    os.chmod(sub, 0o755)
+    cfg["jobmodes"]["verifq"] = {"cmd": sub}
+    json.dump(cfg, open(os.path.join(jm, "config.json"), "w"), indent=2)
+    open(os.path.join(jm, "verifq.template"), "w").write(QUEUE_TEMPLATE)
+    os.symlink(os.path.join(vlib.REPO, "adapters"), os.path.join(rq, "adapters"))
+    return rq
+
+
 def wait_group_gone(pgid, timeout=15.0):
     t0 = time.time()
     while time.time() - t0 < timeout:
@@ -72,6 +114,7 @@ class Cycle:
         self.cores, self.mem = cores, mem
         self.rlimit_as_mb = rlimit_as_mb    # `ulimit -v` for mrp and its jobs (an address space limit that is no whole number of GB)
         self.log = []
+        self.env_extra = {}
 
     def mark(self, ev, **kw):
         with open(self.trace, "a") as f:
@@ -83,6 +126,7 @@ class Cycle:
         env.update({"PATH": os.path.join(self.root, "bin") + ":" + env["PATH"], "MROPATH": self.wd,
                     "VERIF_TRACE": self.trace, "VSTAGE_TABLE": self.table, "MRO_FORCE_UUID": "verif",
                     "TMPDIR": self.wd})
+        env.update(self.env_extra)
         env.pop("VERIF_CRASH_AT", None)
         env.pop("VERIF_SIGNAL_AT", None)
         env.pop("VERIF_CRASH_GROUP", None)
